@@ -36,7 +36,8 @@ def main():
     jobs = 8
     if '--jobs' in sys.argv:
         jobs = int(sys.argv[sys.argv.index('--jobs') + 1])
-    seeds = sorted(d for d in glob.glob('/verif/seeded/C*-*') if os.path.exists(os.path.join(d, 'patch.diff')))
+    args = [a for a in sys.argv[1:] if a.startswith('/') or a.startswith('seeded/')]
+    seeds = [os.path.abspath(a) for a in args] or sorted(d for d in glob.glob('/verif/seeded/C*-*') if os.path.exists(os.path.join(d, 'patch.diff')))
     with multiprocessing.Pool(jobs) as pool:
         results = pool.map(one, seeds)
     lines = ['# Seeded changes x checks', '',
@@ -62,9 +63,12 @@ def main():
             missed.append(name)
         lines.append('| %s | %s%s | %s |' % (name, own, '' if own_hit else (' (not by its own check)' if any_hit else ' **MISSED**'), '; '.join(hits) or '-'))
     lines += ['', 'Seeds: %d; caught by at least one check: %d; missed: %s' % (len(results), len(results) - len(missed), ', '.join(missed) or 'none')]
-    with open('/verif/seeded/MATRIX.md', 'w') as f:
-        f.write('\n'.join(lines) + '\n')
-    print('\n'.join(lines[-1:]))
+    if args:
+        print('\n'.join(lines[7:]))
+    else:
+        with open('/verif/seeded/MATRIX.md', 'w') as f:
+            f.write('\n'.join(lines) + '\n')
+        print('\n'.join(lines[-1:]))
     for name, res, err in results:
         if res is None:
             print(name, err)
